@@ -736,3 +736,33 @@ def r12(ctx):
               "a segment-ack for the request that arrives (again) after the first segment of the confirmation must be ignored, not answered with an abort")
     ctx.check("ClientSSM.await_confirmation:stray-segment-ack-ignored", ok and n >= 1, where(c.module, f),
               "a segment-ack that arrives (again) while the confirmation is awaited must be ignored, not answered with an abort or an exception: %s" % why)
+
+
+@rule("C05.R13", "a negative segment-ack is acted on: only an ack outside the window is ignored as a duplicate, the nak of an in-window segment moves the sender back to the segment asked for", floor=2,
+      engines="E1 paths + E5")
+def r13(ctx):
+    prog = ctx.prog
+    sa = prog.cls("apdu", "SegmentAckPDU")
+    code = prog.const(sa.module, sa.attrs["pduType"], sa)
+    for cname, mname in (("ClientSSM", "segmented_request"), ("ServerSSM", "segmented_response")):
+        c, f = _fn(ctx, cname, mname)
+        apdu = f.args.args[1].arg
+        ev = Evaluator(prog, c.module, c)
+        inw = [x for x in calls_in(f) if self_call(x) == "in_window"]
+        ok = len(inw) >= 1
+        n = 0
+        if ok:
+            key = norm(inw[0])
+            for nak in (True, False):
+                env = {"%s.apduType" % apdu: code, "isinstance:%s" % apdu: "SegmentAckPDU", key: True, "%s.apduNak" % apdu: nak, "self.sentAllSegments": False}
+                for p_ in enumerate_paths(f):
+                    if p_.term == "raise" or not feasible(p_, ev, env):
+                        continue
+                    calls = [self_call(x) for x in p_.calls()]
+                    if "abort" in calls:
+                        continue
+                    n += 1
+                    if "fill_window" not in calls and "set_state" not in calls:
+                        ok = False
+        ctx.check("%s.%s:in-window-ack-acted-on" % (cname, mname), ok and n >= 2, where(c.module, f),
+                  "an ack (positive or negative) for a segment inside the window must make the sender go on from it; only an ack outside the window is a duplicate to ignore")
